@@ -11,7 +11,7 @@ from ..report import Check
 from ..samplercfgs import CONFIGS
 from . import resolve
 
-C16_STEP = {"C16_Once", "C16_Complementary", "C16_PartnerOnFragment", "C16_Tree", "C16_NeverZero", "X_Unreplayable"}
+C16_STEP = {"X_StartFragmentHonoured", "C16_Once", "C16_Complementary", "C16_PartnerOnFragment", "C16_Tree", "C16_NeverZero", "X_Unreplayable"}
 C17_ALL = {"C17_WeightBelowTarget", "C17_NeverZeroSite", "C17_NeverZeroPartner", "C17_ReachesTarget", "C17_StopRule",
            "C17_TerminalBookkeeping", "C17_TerminalClosesAtom", "C17_TerminalsWithdrawn", "C17_MassTable", "X_Unreplayable"}
 C16_RES = ["C02_Records", "C02_Graph", "C02_Cover", "C02_Copy", "C12_Keys", "C12_Contiguous", "C12_AtomNames",
@@ -45,7 +45,7 @@ def observe_all(check, tier):
 
 
 def validate_sampler(check, recs):
-    slim = [{k: r[k] for k in ("K", "start", "events", "final_open", "draws", "tree_ok")} for r in recs]
+    slim = [{k: r[k] for k in ("K", "start", "want_start", "events", "final_open", "draws", "tree_ok")} for r in recs]
     verdicts, stats = tlc.validate("SamplerTrace", slim)
     check.add_tv(stats)
     return verdicts
